@@ -38,6 +38,7 @@ def site_stmt(site, a):
         "nested-call": "lda #defined(defined(nosuch))", "macro-recursion": ".macro rm() { rm() }\nrm()",
         "macro-mutual": ".macro ra() { rb() }\n.macro rb() { ra() }\nra()",
         "mixed-types": '.byte 7\n.byte 1 + "a"\n.byte 8', "mixed-types-insn": 'lda #"a" * 2\nrts', "macro-value": ".macro mv() { nop }\n.byte mv\n.byte 8",
+        "seg-start-string": '.define segment { name = "zs" start = "hello" }\n.segment "zs" { zl: nop }',
         "macro-recursion-untaken": ".macro ru() {\nnop\n.if 0 { ru() }\n}\nru()",
         "macro-mutual-untaken": ".macro rx() {\nnop\n.if 0 { ry() } else { inx }\n}\n.macro ry() { rx() }\nrx()",
         "shadow-segments": "segments: { default: { start: nop } }", "interp-number": '.const ivn = 5\n.text "{ivn}{nosuch}"',
